@@ -1,6 +1,11 @@
 """C10 -- NN-DVI measures neighbourhood density change between exactly the given batches."""
 from .common import A_COMMON
-TARGETS = []
+NP = "menelaus.partitioners.NNSpacePartitioner:NNSpacePartitioner"
+TARGETS = [("fn", NP + ".compute_nnps_distance"), ("lemma", "nnps_vector_form"), ("lemma", "nnps_symmetric"),
+           ("lemma", "nnps_identity"), ("lemma", "nnps_range")]
 LEVEL = "exploration"
-LEVEL_TEXT = ("Bounded: NNSpacePartitioner membership vectors, brute-force k-NN adjacency on tie-free data, distance symmetry / range / identity; NNDVI decisions recomputed under the same seed. The claim that sklearn's kneighbors_graph is the k-NN relation is trusted (probed). Claimed as exploration.")
+LEVEL_TEXT = ("Bounded: NNSpacePartitioner membership vectors, brute-force k-NN adjacency on tie-free data, distance symmetry / range / identity; NNDVI decisions recomputed under the same seed. The claim that sklearn's kneighbors_graph is the k-NN relation is trusted (probed). Deductive (counted separately): compute_nnps_distance returns nnps_sum(v1.M, v2.M, n)/n "
+         "for a recursive spec function nnps_sum (the numpy vector expression is shown equal to it by induction), with "
+         "lemmas symmetric / 0 on equal membership vectors (positive denominators) / in [0, n] for non-negative entries. "
+         "NNSpacePartitioner.build and NNDVI.update are bounded only. Claimed as exploration.")
 ASSUMPTIONS = A_COMMON + []
